@@ -62,6 +62,9 @@ class SimGymEnv(gym.Env):
         self.N = time_limit
         self.log = []
         self.s, self.t, self.n_steps, self.needs_reset, self.fault = None, 0, 0, True, None
+        # hidden mutable state of the peer: gymnasium's own np_random, re-seeded only when reset() gets a seed;
+        # every simulated run starts from a peer whose generator was never seeded (as a freshly made gym.Env)
+        self._np_random = None
 
     def _obs(self):
         o = np.asarray(self.tables["obs"][self.s], dtype=np.float32)
@@ -72,8 +75,8 @@ class SimGymEnv(gym.Env):
     def reset(self, *, seed=None, options=None):
         self.log.append(("reset", None if seed is None else int(seed)))
         init = self.tables["init"]
-        rs = np.random.RandomState(int(seed) % (2**31) if seed is not None else 0)
-        self.s = int(init[rs.randint(len(init))])
+        super().reset(seed=None if seed is None else int(seed))  # Gymnasium convention: seeds self.np_random iff a seed is given
+        self.s = int(init[int(self.np_random.integers(len(init)))])
         self.t = 0
         self.needs_reset = False
         return self._obs(), {}
@@ -188,6 +191,8 @@ class Runner:
                     tr.ev("reset", calls=[c[0] for c in new])
                     if [c[0] for c in new] != ["reset"]:
                         self._fail13(res, props, "adapter_peer_history", "reset_did_not_reach_peer_exactly_once", calls=new)
+                    elif new[0][1] is None:
+                        self._fail13(res, props, "adapter_peer_history", "reset_reached_peer_without_a_seed_from_the_key", calls=new)
                     elif not np.allclose(np.asarray(obs), np.asarray(plan["world"]["obs"][peer.s], dtype=np.float32)):
                         self._fail13(res, props, "adapter_outputs", "reset_observation_differs_from_peer", got=np.asarray(obs).tolist())
                     else:
